@@ -6,7 +6,7 @@
      14 o S nullable union (o = 1: null second) | 15 k S1..Sk union | 16 k S1..Sk record
      logical types (only the physical type matters to the datum codec):
      20 date, 21 time-millis : int | 22 time-micros, 23..26 (local-)timestamp-millis/micros, 29 30 (local-)timestamp-nanos : long
-     27 uuid : string | 28 duration : fixed(12)
+     27 uuid : string | 28 duration : fixed(12) | 31 bytes held in a BinaryView array | 32 string held in a Utf8View array
    Value tokens (schema directed, one group per row):
      null: nothing | boolean: 0/1 | int long enum decimal: the integer | float double: IEEE bit pattern
      bytes string: len, bytes | fixed: bytes | array: n, items | map: n, (klen, key bytes, value)*
@@ -29,7 +29,7 @@ Fixpoint parse_schema (fuel : nat) (l : list Z) {struct fuel} : option (schema *
       else if (c =? 2) || (c =? 20) || (c =? 21) then Some (SInt, r)
       else if (c =? 3) || ((22 <=? c) && (c <=? 26)) || (c =? 29) || (c =? 30) then Some (SLong, r)
       else if c =? 4 then Some (SFloat, r) else if c =? 5 then Some (SDouble, r)
-      else if c =? 6 then Some (SBytes, r) else if (c =? 7) || (c =? 27) then Some (SString, r)
+      else if (c =? 6) || (c =? 31) then Some (SBytes, r) else if (c =? 7) || (c =? 27) || (c =? 32) then Some (SString, r)
       else if c =? 28 then Some (SFixed 12, r)
       else if c =? 8 then match r with n :: r' => Some (SFixed (Z.to_nat n), r') | _ => None end
       else if c =? 9 then match r with n :: r' => Some (SEnum (Z.to_nat n), r') | _ => None end
